@@ -172,10 +172,8 @@ func (x *XmlNode) Find(start int, m meta.Definition) int {
 
 func (x *XmlNode) Choose(sel *node.Selection, choice *meta.Choice) (*meta.ChoiceCase, error) {
 	for _, c := range choice.Cases() {
-		for _, m := range c.DataDefinitions() {
-			if x.Find(0, m) >= 0 {
-				return c, nil
-			}
+		if caseHasData(c, func(m meta.Definition) bool { return x.Find(0, m) >= 0 }) {
+			return c, nil
 		}
 	}
 	return nil, nil
